@@ -50,6 +50,7 @@ class Scope(BaseScope):
         self.top = top
         self.locals = set()   # type: set[str]
         self.globals = set()  # type: set[str]
+        self.nonlocals = set()  # type: set[str]
 
     @property
     def filename(self):
@@ -75,7 +76,10 @@ class Flow(object):
         if name.name in self.scope.globals:
             self.scope.top.add_global(name)
         else:
-            self.scope.locals.add(name.name)
+            # a name declared nonlocal is rebound here but stays a variable
+            # of the enclosing function: reads before this binding resolve outward
+            if name.name not in self.scope.nonlocals:
+                self.scope.locals.add(name.name)
             insert_loc(self._names, name)
 
     @cached_property
@@ -111,6 +115,14 @@ class Flow(object):
                     return MergedDict(snames)
                 else:
                     outer_names = set(snames).difference(self.scope.locals)
+                    if self.scope.globals:
+                        # a name declared global resolves at module level,
+                        # whatever the enclosing functions bind
+                        tnames = self.scope.top.names
+                        outer_names.difference_update(self.scope.globals)
+                        names = {n: snames[n] for n in outer_names}
+                        names.update({n: tnames[n] for n in self.scope.globals if n in tnames})
+                        return names
                     return {n: snames[n] for n in outer_names}
             else:
                 return {}
